@@ -19,7 +19,7 @@ ASSUME = ['generated charts are well-formed', 'offers are observed inside the un
 def run_case(ctx, n):
   rng = ctx.rng('case', n)
   params = seqrun.pick_params(rng, ctx.tier)
-  spec = cg.gen_spec(rng, decline_pre=True, **params)
+  spec = cg.gen_spec(rng, decline_pre=True, clause_queries=n % 3 == 0, **params)
   # bias: more hooks and guards than C01
   for key, r in list(spec['react'].items()):
     if r['k'] == 'T' and rng.random() < 0.5:
